@@ -75,6 +75,7 @@ def main():
 
     general(run, h, rng, proc)
     preprocessing(run, h, rng)
+    psd_chain(run, h, rng)
     return run.finish(
         rule="every 4-sample case of spec/Psd.tla (value alphabet^4 x second window x sampling rate) on all three components; Parseval "
              "identity, 4^k scaling, Welch average and diffuse-field relation on seeded noise (n even/odd, padded, tapered); analytic PSD "
@@ -192,6 +193,69 @@ def preprocessing(run, h, rng):
         if not (np.allclose(out2.ns.amplitude, (y - y.mean()) / sens, atol=1e-9) and np.allclose(out2.vt.amplitude, (y - y.mean()) / sens, atol=1e-9)):
             run.violation("psd-pre:flat-response", f"n={n} fs={fs}: removing a flat response of sensitivity {sens} does not give (x - mean)/sensitivity", rep)
         run.case(("pre", t))
+
+
+def psd_chain(run, h, rng):
+    """spec/PreOrder.tla (PsdSteps): the PSD preprocessing chain for every settings combination x response x
+    differentiation, executed with the library's own primitives, must equal preprocess() bit for bit."""
+    from hvsrpy.instrument_response import InstrumentTransferFunction, _remove_instrument_response, _differentiate
+    res = tlc("PreOrder", "PreOrder", timeout=600, workers=4)
+    require_tlc_ok(res, "PreOrder")
+    run.add_tlc(res, "PreOrder: PsdOrderOK (tapered exactly once, response removed before differentiation) for every settings combination")
+    combos = [c for c in res.cases if isinstance(c, dict) and c.get("psd")]
+    if run.quick:
+        combos = [c for i, c in enumerate(combos) if i % 4 == run.seed % 4]
+    ts = h.TimeSeries
+    fs = 100.0
+    corners = {"none": [None, None], "low": [None, 12.0], "high": [1.5, None], "band": [1.5, 12.0]}
+    itf = InstrumentTransferFunction(poles=[-4.44 + 4.44j, -4.44 - 4.44j], zeros=[0j, 0j], instrument_sensitivity=400.0, normalization_factor=1.0)
+    n = 420
+    mk = lambda: np.cumsum(rng.normal(size=n)) * 0.2 + rng.normal(size=n) + 3.0
+    base = h.SeismicRecording3C(ts(mk(), 1 / fs), ts(mk(), 1 / fs), ts(mk(), 1 / fs), degrees_from_north=20.0)
+    for c in combos:
+        for resp in (0, 1):
+            for diff in (0, 1):
+                chain = c["chains"][str(resp)][str(diff)] if isinstance(c["chains"], dict) else c["chains"][resp][diff]
+                width = float(rng.choice([0.1, 0.5]))
+                st = h.PsdPreProcessingSettings(orient_to_degrees_from_north=None if c["o"] == "none" else float(c["o"]),
+                                                filter_corner_frequencies_in_hz=corners[c["f"]],
+                                                window_length_in_seconds=None if c["s"] == "none" else float(c["s"]),
+                                                detrend=None if c["d"] == "none" else c["d"], window_type_and_width=["tukey", width],
+                                                fft_settings={"n": None}, instrument_transfer_function=itf if resp else None, differentiate=bool(diff))
+                with warnings.catch_warnings():
+                    warnings.simplefilter("ignore")
+                    got = h.preprocess([copy.deepcopy(base)], st)
+                    rec = copy.deepcopy(base)
+                    wins = [rec]
+                    fft = {"n": n}
+                    for step in chain:
+                        if step == "orient":
+                            rec.orient_sensor_to(float(c["o"]))
+                        elif step == "filter":
+                            rec.butterworth_filter(corners[c["f"]])
+                        elif step == "demean":
+                            rec.detrend(type="constant")
+                        elif step == "taper":
+                            rec.window("tukey", width)
+                        elif step == "remove_response":
+                            for comp in ("ns", "ew", "vt"):
+                                setattr(rec, comp, _remove_instrument_response(getattr(rec, comp), itf, fft))
+                        elif step == "differentiate":
+                            for comp in ("ns", "ew", "vt"):
+                                setattr(rec, comp, _differentiate(getattr(rec, comp), fft))
+                        elif step == "split":
+                            wins = rec.split(float(c["s"]))
+                        elif step == "detrend_each":
+                            for w in wins:
+                                w.detrend(type=c["d"])
+                same = len(got) == len(wins) and all(np.array_equal(a.ns.amplitude, b.ns.amplitude) and np.array_equal(a.ew.amplitude, b.ew.amplitude)
+                                                     and np.array_equal(a.vt.amplitude, b.vt.amplitude) for a, b in zip(got, wins))
+                if not same:
+                    run.violation(f"psd-pre:chain:response={resp}:differentiate={diff}",
+                                  f"PSD preprocessing with orient={c['o']} filter={c['f']} window={c['s']} detrend={c['d']} taper={width} response={bool(resp)} "
+                                  f"differentiate={bool(diff)} differs from the documented chain {chain} executed with the library's own primitives",
+                                  dict(kind="psd-chain", combo=c, resp=resp, diff=diff, width=width))
+                run.case(("chain", c["o"], c["f"], c["s"], c["d"], resp, diff) if (resp or diff) else None)
 
 
 if __name__ == "__main__":
